@@ -6,7 +6,8 @@ rc=0
 for d in seeded/${1:-C}*; do
   id=$(basename "$d"); prop=${id%%-*}
   if grep -q '"superseded"' "$d/meta.json" 2>/dev/null; then echo "$id SUPERSEDED (see meta.json)"; continue; fi
-  res=$(tools/try_mutant.sh "$prop" "$here/$d/patch.diff" "$here/$d/demo.py" 2>&1 | grep -E "^RESULT|^suite|PATCH-DOES" | tr '\n' ' ')
+  demo=""; [ -f "$here/$d/demo.py" ] && demo="$here/$d/demo.py"
+  res=$(tools/try_mutant.sh "$prop" "$here/$d/patch.diff" $demo 2>&1 | grep -E "^RESULT|^suite|PATCH-DOES" | tr '\n' ' ')
   echo "$id $res"
   case "$res" in *CAUGHT*) ;; *) rc=1;; esac
 done
